@@ -165,6 +165,14 @@ def _check_notes(alg, size, notes, fallback_size, fails, tag):
     exp_fb = [('info', fallback_size)] if fallback_size is not None and size == fallback_size else []
     if fb != exp_fb:
         fails.append(['fallback-note', '%s %s: size=%r fallback-notes=%r expected=%r' % (tag, alg, size, fb, exp_fb)])
+    # measuring a modulus of 2048 bits or more (or none at all) adds size notes; it takes nothing away from what the table says about the algorithm
+    from ssh_audit.ssh2_kexdb import SSH2_KexDB
+    entry = SSH2_KexDB.MASTER_DB['kex'][alg]
+    if size is None or size >= 2048:
+        for i, sev in ((1, 'fail'), (2, 'warn')):
+            lost = [t for t in (entry[i] if len(entry) > i else []) if t not in notes.get(sev, [])]
+            if lost:
+                fails.append(['table-rating-lost-after-measurement', '%s %s: size=%r, the table %s note %r is gone (shown: %r)' % (tag, alg, size, sev, lost, notes.get(sev, []))])
 
 
 def eval_slow(case):
